@@ -50,6 +50,17 @@ def run(prop: str, tier: str, repo_root: str, evidence_dir=None, selftest=True) 
             if st.get("failed"):
                 for f in st["failed"]:
                     rep.undecided("SELFTEST", f)
+            # sensitivity measure (informational, never part of the verdict): a seeded sample of
+            # generic single-point mutants of the functions that carry this property's obligations
+            try:
+                from selftest.sweep import sweep
+
+                sw = sweep(prop, repo=repo_root, limit=int(os.environ.get("VERIF_SWEEP", "64")), seed=int(os.environ.get("VERIF_SEED", "0") or 0))
+                sw["survivors"] = sw["survivors"][:25]
+                sw["note"] = "generic AST mutants (statement dropped, condition negated/constant, comparison swapped, category literal changed, return value replaced); a survivor is behaviour-preserving, outside the decided clauses, or a gap - informational only"
+                rep.extra["mutation_sweep"] = sw
+            except Exception as e:  # pragma: no cover
+                rep.extra["mutation_sweep"] = {"error": str(e)}
         return rep.finish(selftest=st)
     except AnalysisError as e:
         print(f"ANALYSIS-ERROR property={prop} {e}")
